@@ -500,7 +500,10 @@ func TestC14(t *testing.T) {
 			y.ln("on: push")
 			y.ln("jobs:")
 			y.ln("  call:")
-			usesLine := y.ln("    uses: ./.github/workflows/callee.yml")
+			// uses / with / secrets are written in a random order; what is reported at the uses line is
+			// collected first and placed once the line is known
+			usesLine := 0
+			var atUses []string
 			type kv struct{ k, v, note string }
 			var with []kv
 			for _, in := range ins {
@@ -524,40 +527,44 @@ func TestC14(t *testing.T) {
 					}
 					with = append(with, kv{g.spell(in.name), v, note})
 				} else if in.required {
-					exp = append(exp, fmt.Sprintf("%d|missing-required-input|%s", usesLine, in.name))
+					atUses = append(atUses, "missing-required-input|"+in.name)
 				}
 			}
 			for i := 0; i < rapid.IntRange(0, 2).Draw(rt, "nund"); i++ {
 				with = append(with, kv{fmt.Sprintf("zz-undeclared-%d", i), "v", "undeclared"})
 			}
-			if len(with) > 0 {
-				y.ln("    with:")
-				for _, e := range rapid.Permutation(with).Draw(rt, "worder") {
-					ln := y.ln("      %s: %s", e.k, e.v)
-					switch e.note {
-					case "undeclared":
-						exp = append(exp, fmt.Sprintf("%d|undefined-input|%s", ln, e.k))
-					case "bad":
-						exp = append(exp, fmt.Sprintf("%d|unassignable-typed-value|%s", ln, strings.ToLower(e.k)))
+			emitWith := func() {
+				if len(with) > 0 {
+					y.ln("    with:")
+					for _, e := range rapid.Permutation(with).Draw(rt, "worder") {
+						ln := y.ln("      %s: %s", e.k, e.v)
+						switch e.note {
+						case "undeclared":
+							exp = append(exp, fmt.Sprintf("%d|undefined-input|%s", ln, e.k))
+						case "bad":
+							exp = append(exp, fmt.Sprintf("%d|unassignable-typed-value|%s", ln, strings.ToLower(e.k)))
+						}
 					}
 				}
 			}
 			inherit := rapid.IntRange(0, 3).Draw(rt, "inherit") == 0
-			if inherit {
-				y.ln("    secrets: inherit")
-			} else {
-				var ss []kv
+			var ss []kv
+			if !inherit {
 				for _, s := range secs {
 					if rapid.IntRange(0, 9).Draw(rt, "sgive") < 6 {
 						ss = append(ss, kv{g.spell(s.name), "${{ secrets.X }}", ""})
 					} else if s.required {
-						exp = append(exp, fmt.Sprintf("%d|missing-required-secret|%s", usesLine, s.name))
+						atUses = append(atUses, "missing-required-secret|"+s.name)
 					}
 				}
 				for i := 0; i < rapid.IntRange(0, 2).Draw(rt, "nsund"); i++ {
 					ss = append(ss, kv{fmt.Sprintf("zz-undeclared-secret-%d", i), "x", "undeclared"})
 				}
-				if len(ss) > 0 {
+			}
+			emitSecrets := func() {
+				if inherit {
+					y.ln("    secrets: inherit")
+				} else if len(ss) > 0 {
 					y.ln("    secrets:")
 					for _, e := range rapid.Permutation(ss).Draw(rt, "sorder") {
 						ln := y.ln("      %s: %s", e.k, e.v)
@@ -566,6 +573,21 @@ func TestC14(t *testing.T) {
 						}
 					}
 				}
+			}
+			emitUses := func() { usesLine = y.ln("    uses: ./.github/workflows/callee.yml") }
+			blocks := []func(){emitUses, emitWith, emitSecrets}
+			order := []int{0, 1, 2}
+			if rapid.Bool().Draw(rt, "shufflecallkeys") {
+				order = rapid.Permutation(order).Draw(rt, "callkeyorder")
+			}
+			for _, b := range order {
+				blocks[b]()
+			}
+			if order[0] != 0 {
+				r.Class("reusable-workflow/with-or-secrets-before-uses")
+			}
+			for _, a := range atUses {
+				exp = append(exp, fmt.Sprintf("%d|%s", usesLine, a))
 			}
 			y.ln("  after:")
 			y.ln("    needs: [call]")
